@@ -55,8 +55,6 @@ _READ_TYPES = [re.compile(x) for x in READ_TYPES]
 ALLOW = {
     ("replica::Replica::<S>::dependency_map::{closure#0}", "Option::unwrap/expect", 1):
         "self.depmap is assigned Some(..) on every path just above (replica.rs, 'at this point self.depmap is guaranteed to be Some')",
-    ("task::task::uda_string_to_tuple", "Option::unwrap/expect", 1):
-        "first item of str::splitn(2, ..) always exists",
     ("taskdb::undo::get_undo_operations::{closure#0}", "indexing", 1):
         "range start is an index produced by enumerate() over the same vector (<= len)",
     ("workingset::WorkingSet::new", "indexing", 1):
@@ -67,8 +65,12 @@ ALLOW = {
 
 
 def writer_methods(F):
-    """StorageTxn method names that modify storage: derived from the SQLite transaction,
-    which guards exactly those with check_write_access"""
+    """StorageTxn method names that modify storage (role-based, see roles.py)"""
+    import roles
+    return roles.writer_methods(F)
+
+
+def _writer_methods_old(F):
     out = set()
     for im in F.impls:
         if not im.get("trait", "").endswith("WrappedStorageTxn"):
@@ -174,6 +176,28 @@ def panic_sites_in(F, body):
     return out
 
 
+def _structurally_safe(F, b, kind, bb):
+    """unwrap()/expect() on the first `next()` of a `splitn`/`split` iterator cannot fail"""
+    if kind != "Option::unwrap/expect":
+        return False
+    from tc.util import flow_of
+    t = b["blocks"][bb]["t"]
+    fl = flow_of(b)
+    sl = fl.slice_operand(t["args"][0], stop=lambda tt: any(n.endswith("Iterator::next") for n in call_names(tt)))
+    nexts = [r for r in sl.roots if r[0] == "call" and r[2].endswith("Iterator::next")]
+    if len(nexts) != 1 or any(r[0] in ("param", "upvar") for r in sl.roots):
+        return False
+    nt = b["blocks"][nexts[0][1]]["t"]
+    s2 = fl.slice_operand(nt["args"][0])
+    if not any(re.search(r"<impl str>::(splitn|split|rsplitn|split_terminator|lines)$", n) for n in s2.call_names()):
+        return False
+    # it must be the *first* next() on that iterator: no other next() call on it dominates this one
+    from tc.util import cfg_of
+    c = cfg_of(b)
+    others = [i for i, tt in c.calls() if any(n.endswith("Iterator::next") for n in call_names(tt)) and i != nexts[0][1] and c.dominates(i, nexts[0][1])]
+    return not others
+
+
 def rule_panic(F, R, allow=None):
     allow = ALLOW if allow is None else allow
     R.begin("C18", "no panic construct (panic!/unreachable!/assert!, unwrap/expect, panicking index or arithmetic API, compiler-inserted Assert) is reachable from a read accessor, except the allow-listed sites")
@@ -211,6 +235,9 @@ def rule_panic(F, R, allow=None):
             nsites += 1
             key = (p, kind, n)
             chain = F.chain(seen, p)
+            if key not in allow and _structurally_safe(F, b, kind, bb):
+                R.ok("C18", "structurally safe: %s #%d in %s (first item of str::splitn always exists)" % (kind, n, p), where(b, sp=sp))
+                continue
             if key in allow:
                 used_allow.add(key)
                 R.ok("C18", "allow-listed: %s #%d in %s (%s)" % (kind, n, p, allow[key]), where(b, sp=sp))
